@@ -37,16 +37,20 @@ func regexpFromGlob(pattern string) string {
 	// https://github.com/google/re2/wiki/Syntax
 	// glob (programming) - Wikipedia
 	// https://en.wikipedia.org/wiki/Glob_(programming)
-	repstrs := []struct {
-		old string
-		new string
-	}{
-		{old: "*", new: ".*"},
-		{old: "?", new: "."},
+	// '*' matches any sequence of characters and '?' any single character (newlines included);
+	// every other character, regular expression metacharacters included, matches only itself.
+	var re2Pattern strings.Builder
+	re2Pattern.WriteString("(?s)^")
+	for i := 0; i < len(pattern); i++ {
+		switch pattern[i] {
+		case '*':
+			re2Pattern.WriteString(".*")
+		case '?':
+			re2Pattern.WriteString(".")
+		default:
+			re2Pattern.WriteString(regexp.QuoteMeta(pattern[i : i+1]))
+		}
 	}
-	re2Pattern := pattern
-	for _, repstr := range repstrs {
-		re2Pattern = strings.ReplaceAll(re2Pattern, repstr.old, repstr.new)
-	}
-	return "^" + re2Pattern + "$"
+	re2Pattern.WriteString("$")
+	return re2Pattern.String()
 }
